@@ -231,6 +231,41 @@ def _chunk(args):
                           "n_schema": len(A), "n_instances": len(B)})
     return cnt, fails
 
+def _show_chunk(args):
+    """`#show p/n.` (rewritten to p/(n+1)): the answer sets of P with show statements are the answer sets of P projected to
+    the shown signatures"""
+    seed, n, H = args
+    import clingo
+    r = random.Random(seed)
+    fails, cnt = [], 0
+    sigs = [("p", 1, True), ("q", 1, True), ("p", 1, False), ("q", 0, True), ("d", 1, True), ("r", 1, True), ("p", 2, True)]
+    def sig_of(atom):
+        t = clingo.parse_term(atom.rsplit("@", 1)[0])
+        return (t.name, len(t.arguments), t.positive)
+    for _ in range(n):
+        ELEMS.clear()
+        rules = [rule(r) for _ in range(r.randint(1, 3))]
+        base = "#program always. d(1..2). { p(1..2) }. { q(1) }. { q }.\n" + "\n".join("#program %s. %s" % (p, expand(t, 0)) for p, t in rules)
+        shown = r.sample(sigs, r.randint(1, 3))
+        shows = "\n" + " ".join("#show %s%s/%d." % ("" if pos else "-", nm, ar) for nm, ar, pos in shown)
+        a = oracles.impl_models(base, H, limit=20, dedup=True)
+        b = oracles.impl_models(base + shows, H, limit=20, dedup=True)
+        cnt += 1
+        if a[0] == "err" or b[0] == "err":
+            if "Timeout" in (a[1], b[1]):
+                continue
+            if (a[1] if a[0] == "err" else "ok") != (b[1] if b[0] == "err" else "ok"):
+                fails.append({"kind": "show-exception", "text": base + shows, "without": str(a)[:200], "with": str(b)[:200]})
+            continue
+        for h in range(H + 1):
+            want = sorted(set(tuple(x for x in m if sig_of(x) in shown) for m in a[1].get(h, [])))
+            got = b[1].get(h, [])
+            if want != got:
+                fails.append({"kind": "show", "text": base + shows, "h": h, "expected_projection": [list(m) for m in want if m not in got][:2],
+                              "reported": [list(m) for m in got if m not in want][:2], "n_expected": len(want), "n_reported": len(got)})
+                break
+    return cnt, fails
+
 def search(ctx, deep):
     n = (10 if ctx.tier == "quick" else 50) * (3 if deep else 1)
     H = 2 if ctx.tier == "quick" else 3
@@ -239,8 +274,12 @@ def search(ctx, deep):
     for c, f in par.pmap(_chunk, [(ctx.seed * 157 + j, n, H) for j in range(ctx.jobs)], ctx.jobs):
         cnt += c
         fails += f
+    nshow = 0
+    for c, f in par.pmap(_show_chunk, [(ctx.seed * 181 + j, max(2, n // 3), 2) for j in range(ctx.jobs)], ctx.jobs):
+        nshow += c
+        fails += f
     r = random.Random(ctx.seed)
-    return {"schemata": cnt, "domain": "d(1..2)", "horizons": "0..{}".format(H),
+    return {"schemata": cnt, "show_statement_programs": nshow, "domain": "d(1..2)", "horizons": "0..{}".format(H),
             "sample": {"schema": "#program %s. %s" % rule(r)}}, fails
 
 def replay(obj):
